@@ -22,9 +22,6 @@ var _ tree = (*treeSimple)(nil)
 
 func newTreeSimple(cfg *config) tree {
 	growerFactory := func(lastNodeFormat, intermedialNodeFormat branchFormat, dryrun bool, encode encode) growerSimple {
-		if encode != encodeDefault {
-			return newNopGrowerSimple()
-		}
 		return newGrowerSimple(lastNodeFormat, intermedialNodeFormat, dryrun)
 	}
 
